@@ -68,3 +68,22 @@ Example C07_lzx_sample : let n := N.of_nat (length s_data) in
   lzx_run 17 0 n true [] (s_stream ++ s_pad) [10; 1; n - 11] = ([0; 0; 0], s_data) /\
   fst (lzx_run 17 0 n true [] (s_stream ++ s_pad) [n; 5]) <> [0; 0].
 Proof. split; [vm_compute; reflexivity|vm_compute; discriminate]. Qed.
+
+(* ---- the real Quantum port (Model/Qtm.v: decompress = qtmd_decompress incl. the window flush inside the match loop) ---- *)
+From MSP Require Import Model.Qtm Proofs.QtmAcct Props.QtmSample.
+(* the arithmetic decoder (model lookup, update, renormalisation) and the frame trailer scan only read *)
+Theorem C07_qtm_symbol_decoder_only_reads : forall rule hint m st s r s',
+  ideal rule hint (get_symbol m st) s = (r, s') -> iout s' = iout s.
+Proof. intros rule hint m st s r s' H. exact (proj1 (nowrite_run _ rule hint _ (QtmAcct.nwm_get_symbol m st) _ _ _ H)). Qed.
+Print Assumptions C07_qtm_symbol_decoder_only_reads.
+Theorem C07_qtm_port_accounting : forall s i n st s' i', qtm_call s i n = (st, s', i') ->
+  olen i <= olen i' /\ olen i' <= olen i + n /\ (st = 0 -> olen i' = olen i + n).
+Proof. exact qtm_call_acct. Qed.
+Print Assumptions C07_qtm_port_accounting.
+Theorem C07_qtm_stream_accounting : forall wb inp reqs sts out, qtm_run wb inp reqs = (sts, out) ->
+  length sts = length reqs /\ N.of_nat (length out) <= QtmAcct.sumN reqs /\ (Forall (fun st => st = 0) sts -> N.of_nat (length out) = QtmAcct.sumN reqs).
+Proof. exact qtm_run_acct. Qed.
+Print Assumptions C07_qtm_stream_accounting.
+(* non-vacuity: a generated 1 KiB-window stream (the window wraps twice) decoded in three calls *)
+Example C07_qtm_sample : qtm_run 10 q_stream [100; 1500; 1000] = ([0; 0; 0], q_data).
+Proof. vm_compute. reflexivity. Qed.
